@@ -1,3 +1,9 @@
 package world
-import ("testing"; _ "github.com/anishathalye/porcupine"; _ "github.com/thushan/olla/internal/app")
-func TestX(t *testing.T){}
+
+import (
+	_ "github.com/anishathalye/porcupine"
+	_ "github.com/thushan/olla/internal/app"
+	"testing"
+)
+
+func TestX(t *testing.T) {}
